@@ -150,13 +150,15 @@ fn login(cred: &Cred, s: &mut Session, node: &Node) {
     match cred {
         Cred::None => {}
         Cred::WrongPwd => {
-            s.call(dbs, "auth admin wrong");
-            s.call(dbs, "auth wrong pwd");
+            // wrong, and near misses: truncated, extended, other case, swapped, empty
+            for l in ["auth admin wrong", "auth wrong pwd", "auth", "auth admin", "auth a p", "auth admin pw", "auth adm pwd", "auth admin pwdx", "auth adminx pwd", "auth ADMIN PWD", "auth pwd admin", "auth  pwd", "auth admin "] {
+                s.call(dbs, l);
+            }
         }
         Cred::WrongToken => {
-            s.call(dbs, "use-db db wrong");
-            s.call(dbs, "use-db db u wrong");
-            s.call(dbs, "use-db nodb tok");
+            for l in ["use-db db wrong", "use-db db u wrong", "use-db nodb tok", "use-db db", "use-db db t", "use-db db to", "use-db db tokx", "use-db db TOK", "use-db db u", "use-db db u uto", "use-db db u utokx", "use-db db ux utok", "use-db db u tok", "use-db other tok", "use-db db otok"] {
+                s.call(dbs, l);
+            }
         }
         Cred::DbToken => {
             s.call(dbs, "use-db db tok");
